@@ -245,6 +245,23 @@ func (ex *Exec) evIdent(name string, env *Env) Val {
 	if v, ok := env.vars[name]; ok {
 		return v
 	}
+	if name == "$ranged" {
+		// the slice a range-over-slice loop iterates over (evaluated once
+		// before the loop): the operand of the len() feeding the loop test
+		if env.loopHead == nil {
+			specFail("$ranged outside a loop clause")
+		}
+		for _, ins := range env.loopHead.Instrs {
+			if b, ok := ins.(*ssa.BinOp); ok {
+				if c, ok := b.Y.(*ssa.Call); ok {
+					if bi, ok := c.Call.Value.(*ssa.Builtin); ok && bi.Name() == "len" {
+						return ex.get(env.st, c.Call.Args[0])
+					}
+				}
+			}
+		}
+		specFail("$ranged: loop is not a range over a slice")
+	}
 	if name == "$pos" {
 		// the (single) active string iterator
 		for _, t := range env.st.iters {
